@@ -119,9 +119,14 @@ def encode_url(path, rng):
     return ''.join(out)
 
 
+EXTRA = []     # absolute paths of the outside files of the current tree
+
+
 def gen_path(rng, prefix):
     n = rng.choice([0, 1, 1, 2, 2, 3, 3, 4, 5, 7])
     parts = [rng.choice(PIECES) for _ in range(n)]
+    if EXTRA and rng.random() < 0.06:
+        return prefix + rng.choice(['', '/', 'a/../', '.']) + rng.choice(EXTRA)
     sep = rng.choice(['/', '/', '/', ''])
     tail = sep.join(parts)
     if rng.random() < 0.3:
@@ -231,6 +236,8 @@ def main(ctx):
     setrange_corr(ctx, model, _set_range, _BoundedFile, falcon)
     base, root, listing = build_tree()
     AUDIT['root'] = base
+    EXTRA[:] = [p for p in listing if not p.startswith(root + '/')] + \
+        [p[1:] for p in listing if not p.startswith(root + '/')]
     requests_corr(ctx, falcon, testing, model, base, root, listing, quick)
     for o in common.corpus('C16'):
         replay(ctx, o)
@@ -370,7 +377,8 @@ def setrange_corr(ctx, model, _set_range, _BoundedFile, falcon):
         if real != m or not body_ok:
             ctx.violation('correspondence-broken', {'broken': 'C16.set_range_corr', 'size': size,
                                                     'range': rr and list(rr), 'impl': real, 'model': m,
-                                                    'body_ok': body_ok}, found_input=False, key='set-range-corr')
+                                                    'body_ok': body_ok},
+                          found_input=any(v['found_input'] for v in ctx.violations), key='set-range-corr')
 
 
 # ----------------------------------------------------------------------------- requests
@@ -427,6 +435,8 @@ def requests_corr(ctx, falcon, testing, model, base, root, listing, quick):
                     status = int(e.status[:3]) if isinstance(e.status, str) else int(e.status)
                     hd = {k.lower(): v for k, v in (e.headers or {}).items()}
                     body = b''
+                except Exception as e:  # noqa: BLE001 - an unexpected exception is a 500
+                    status, hd, body = 500, {'x-exception': type(e).__name__}, b''
             else:
                 cl = wc if mode == 'wsgi' else ac
                 r = cl.simulate_request(method, path, headers=headers)
@@ -434,6 +444,7 @@ def requests_corr(ctx, falcon, testing, model, base, root, listing, quick):
             opened = list(ev)
         return status, hd, body, opened
 
+    mtimes = sorted({v[1] for v in listing.values()})
     # ---- generated requests
     n = 3500 if quick else 35000
     cases = []
@@ -446,7 +457,9 @@ def requests_corr(ctx, falcon, testing, model, base, root, listing, quick):
             path = '/' + path
         path = encode_url(path, rng)
         rv = gen_range(rng) if rng.random() < 0.5 else None
-        ims = rng.choice([None, None, None, MTIME - 5, MTIME + 30, MTIME + 31, MTIME + 10 ** 6])
+        ims = rng.choice([None, None, None, MTIME - 5, MTIME + 10 ** 6,
+                          rng.choice(mtimes) + rng.choice([-1, 0, 0, 1]),
+                          rng.choice(mtimes) + rng.choice([-1, 0, 0, 1])])
         mode = ('direct', 'direct', 'wsgi', 'wsgi', 'asgi')[i % 5]
         cases.append((ci, path, rv, ims, mode))
     # every plain Range form against every file size, through both app kinds
@@ -459,6 +472,12 @@ def requests_corr(ctx, falcon, testing, model, base, root, listing, quick):
         rel = p[len(root) + 1:]
         for k, rv in enumerate(plain + [r for r in RANGES if r]):
             cases.append((0, '/static/' + rel, rv, None, ('wsgi', 'asgi', 'direct')[k % 3]))
+    # If-Modified-Since just before / at / just after every file's mtime
+    for p, v in sorted(listing.items()):
+        if p.startswith(root + '/'):
+            rel = p[len(root) + 1:]
+            for k, dt in enumerate((-1, 0, 1)):
+                cases.append((0, encode_url('/static/' + rel, rng), None, v[1] + dt, ('wsgi', 'asgi', 'direct')[k]))
     run_cases(ctx, falcon, testing, model, configs, one, cases, listing, files_wire, base, root)
     # OPTIONS
     st, hd, body, opened = one(0, '/static/a', None, None, 'wsgi', method='OPTIONS')
@@ -487,6 +506,8 @@ def run_cases(ctx, falcon, testing, model, configs, one, cases, listing, files_w
     outs = model.run_many(wires)
     contain_q, contain_meta = [], []
     resp_q, resp_meta = [], []
+    nm_q, nm_meta = [], []
+    corr_break = []
     nbad = 0
     for k, (case, o) in enumerate(zip(cases, obs)):
         ci, path, rv, ims, mode = case
@@ -521,10 +542,13 @@ def run_cases(ctx, falcon, testing, model, configs, one, cases, listing, files_w
         if got != exp_c or [os.path.normpath(p) if False else p for p in opened] != exp_opened:
             nbad += 1
             ctx.count('disagree')
-            if nbad <= 3:
-                ctx.violation('correspondence-broken', dict(detail, broken='C16.serve_corr', impl=got, model=exp_c,
-                                                            model_opens=exp_opened), found_input=False,
-                              key='serve-corr')
+            if nbad <= 1:
+                corr_break.append(dict(detail, broken='C16.serve_corr', impl=got, model=exp_c,
+                                       model_opens=exp_opened))
+        # (2b) binding: "anything else is a 404" - only the documented statuses, and 404 when no file was opened
+        if status not in (200, 206, 304, 400, 404, 416) or (not opened and status != 404):
+            ctx.violation('not-404', dict(detail, what='a request that served no file was not answered 404'),
+                          key='not-404-%s' % status)
         # (3) binding: RFC oracle + body bytes for served files
         if status in (200, 206, 416) and opened:
             f = opened[-1]
@@ -534,12 +558,21 @@ def run_cases(ctx, falcon, testing, model, configs, one, cases, listing, files_w
                 resp_meta.append((k, detail, data, body, got))
         if status == 304 and body:
             ctx.violation('range-clause-violated', dict(detail, what='304 with a body'), key='304-body')
+        if status in (200, 206, 416, 304) and opened and opened[-1] in listing:
+            nm_q.append([8, listing[opened[-1]][1], ([] if ims is None else [ims])])
+            nm_meta.append((detail, status))
     verdicts = model.run_many(contain_q)
     for (k, p, detail), v in zip(contain_meta, verdicts):
         if not v:
             ctx.violation('containment-violated', dict(detail, outside=p,
                                                        what='a file outside the directory (and not the fallback) was opened'),
                           key='containment')
+    verdicts = model.run_many(nm_q)
+    for (detail, status), v in zip(nm_meta, verdicts):
+        if bool(v) != (status == 304):
+            ctx.violation('not-modified-violated',
+                          dict(detail, what='304 expected' if v else '304 although the file is newer'),
+                          key='not-modified-%s' % v)
     verdicts = model.run_many(resp_q)
     for (k, detail, data, body, got), v in zip(resp_meta, verdicts):
         ok = bool(v[0])
@@ -555,6 +588,10 @@ def run_cases(ctx, falcon, testing, model, configs, one, cases, listing, files_w
         if not ok:
             ctx.violation('range-clause-violated', dict(detail, impl=got, expected=e, body=list(body)[:20]),
                           key='range-%s' % e[0])
+    for d in corr_break:
+        # behaviour differs from the model; a failing input exists iff some oracle clause failed above
+        ctx.violation('correspondence-broken', d, found_input=any(v['found_input'] for v in ctx.violations),
+                      key='serve-corr')
     if cases:
         c = cases[0]
         ctx.sample({'path': c[1], 'range': c[2], 'status': obs[0][0], 'opened': obs[0][3]})
